@@ -92,6 +92,9 @@ TRANSLATED = {"C05": ["NAdvanceGen", "MultistageGen", "SeqGen", "HSeqGen", "Argm
               "C08": ["BasicGen", "TwoLevelGen", "MultistageGen", "ConverterGen", "MixedGen", "SeqGen", "HSeqGen", "ArgminGen", "HoptGen", "OptInfGen", "Opt0Gen", "MemoGen", "TabulGen", "SeqPins", "AllocPins", "EnumPins"], "C09": ["BasicGen", "TwoLevelGen", "MultistageGen", "ConverterGen", "MixedGen", "SeqGen", "HSeqGen", "ArgminGen", "HoptGen", "OptInfGen", "Opt0Gen", "MemoGen", "TabulGen", "SeqPins", "AllocPins", "EnumPins"],
               "C12": ["BasicGen", "TwoLevelGen", "MultistageGen", "ConverterGen", "ConvertGen", "MixedGen", "SeqGen", "HSeqGen", "ArgminGen", "HoptGen", "OptInfGen", "Opt0Gen", "MemoGen", "TabulGen", "SeqPins", "AllocPins", "EnumPins"], "C14": ["MultistageGen", "AllocPins"], "C06": ["MemoGen", "MixedGen", "TabulGen", "HelperPins", "MixHelperGen"], "C15": ["MemoGen", "HelperGen", "MixHelperGen", "HelperPins", "TabulGen", "BasicGen", "TwoLevelGen", "MultistageGen", "ConverterGen", "MixedGen", "SeqGen", "HSeqGen", "ArgminGen", "HoptGen", "OptInfGen", "Opt0Gen", "SeqPins", "AllocPins", "EnumPins"],
               "C16": ["MemoGen", "MixedGen", "TabulGen"], "C07": ["SeqGen", "HSeqGen", "ArgminGen", "HoptGen", "OptInfGen", "Opt0Gen", "SeqPins"], "C19": ["SeqGen", "HSeqGen", "ArgminGen", "HoptGen", "OptInfGen", "Opt0Gen", "SeqPins"]}
+for _l in TRANSLATED.values():        # the period formula of PeriodicDiskRevolve goes wherever the sequence generators go
+    if "SeqGen" in _l and "MxrrGen" not in _l:
+        _l.insert(_l.index("SeqGen") + 1, "MxrrGen")
 
 
 def translation_layer(pid, res):
